@@ -332,6 +332,80 @@ func lengthSummary(c *load.Ctx, m *scanModel, sp lenSpec) (lenSummary, []string,
 	if first {
 		return sum, table, fmt.Errorf("no path for lexeme + end-top marker")
 	}
+	// Whatever the kind of a lexeme, a later lexeme replaces it: Length() stops at the end-top marker
+	// and at the end of the stream only (an annotation after the closing bracket belongs to the text).
+	{
+		var tnames []string
+		tvals := map[string]int64{}
+		for v, n := range m.evNames {
+			if n != "EndTop" {
+				tnames = append(tnames, n)
+				tvals[n] = v
+			}
+		}
+		sort.Strings(tnames)
+		for _, tn := range tnames {
+			k := 0
+			cfg2 := cfg
+			cfg2.Intrinsics = map[string]pe.Intrinsic{}
+			for key, v := range cfg.Intrinsics {
+				cfg2.Intrinsics[key] = v
+			}
+			cfg2.Intrinsics[m.next.String()] = func(in *pe.Interp, args []pe.Value) (pe.Value, bool) {
+				k++
+				zero := in.Zero(m.next.Signature.Results().At(0).Type())
+				if k >= 3 {
+					if m.retErr {
+						return &pe.Tuple{E: []pe.Value{zero, eosVal}}, true
+					}
+					return &pe.Tuple{E: []pe.Value{zero, false}}, true
+				}
+				t := tvals[tn]
+				if k == 2 {
+					t = other
+				}
+				lex := in.Call(newLex, []pe.Value{t, pe.NewSym(fmt.Sprintf("b%d", k), idxT), pe.NewSym(fmt.Sprintf("e%d", k), idxT), pe.NilV{}})
+				if m.retErr {
+					return &pe.Tuple{E: []pe.Value{lex, pe.NilV{}}}, true
+				}
+				return &pe.Tuple{E: []pe.Value{lex, true}}, true
+			}
+			cfg2.Intrinsics[isBlank.String()] = func(in *pe.Interp, args []pe.Value) (pe.Value, bool) { return false, true }
+			for _, o := range pe.ExploreFn(&cfg2, func(in *pe.Interp) pe.Value {
+				k = 0
+				root := pe.Clone(m.initial).(*pe.Ptr)
+				in.Store(in.FieldPtr(root, sp.flag), true)
+				sv := root.Obj.Val.(*pe.StructV)
+				stT := sv.T.Underlying().(*types.Struct)
+				for i := 0; i < stT.NumFields(); i++ {
+					if stT.Field(i).Name() == "dataSize" {
+						sv.F[i] = pe.NewSym("N", stT.Field(i).Type())
+					}
+				}
+				return in.Call(length, []pe.Value{root})
+			}) {
+				if o.Undecided != "" || o.Panicked {
+					continue
+				}
+				skip := false
+				for kk, v := range o.ChoiceMap() {
+					if strings.HasPrefix(kk, "ord(") && strings.HasSuffix(kk, ",0)") && v != ">" {
+						skip = true
+					}
+				}
+				if skip {
+					continue
+				}
+				ret := o.Ret
+				if tp, ok := ret.(*pe.Tuple); ok && len(tp.E) == 2 {
+					ret = tp.E[0]
+				}
+				if sy, ok := ret.(*pe.Sym); !ok || sy.Expr != "e2" {
+					return sum, table, fmt.Errorf("after a lexeme of type %s followed by another lexeme Length() returns %s: it stops at the %s although the text goes on (an annotation after a closing bracket is part of the text)", tn, pe.Show(ret), tn)
+				}
+			}
+		}
+	}
 	// the bytes tested by the trimming loop are data[P-1], data[P-2], ...
 	sum.trimOK = true
 	for _, rw := range live {
